@@ -49,12 +49,20 @@ def cells(tier):
             continue
         out.append(dict(obs=f"{kind}_{flav}", process=proc, pid=pid, scheme=sch, nf=nf, ZMq=tuple(bool(z) for z in zm), pto=pto,
                         a_first=bool((len(out) % 2))))
+    # PTODIS and PTO(evolution) are independent cards entries: towers of asymptotic kernels of every length (1, 2, 3) next to NNLO/N3LO coefficients
+    for kind, proc, pto, pto_evol in itertools.product(["F2", "FL", "F3"], ["EM", "NC"], [2, 3], [0, 1, 2]):
+        if pto_evol == min(pto, 2) or (proc == "EM" and kind == "F3"):
+            continue
+        if q and not (kind == "F2" and proc == "NC"):
+            continue
+        out.append(dict(obs=f"{kind}_light", process=proc, pid=11, scheme="FFN0", nf=3, ZMq=(False, False, False), pto=pto, pto_evol=pto_evol,
+                        a_first=bool((len(out) % 2))))
     return out
 
 
 def pairs_combiner(cell, P, Q2, Z, A):
     kw = dict(obs=cell["obs"], process=cell["process"], pid=cell["pid"], Q2=Q2, scheme=cell["scheme"], nf=cell["nf"],
-              ZMq=cell["ZMq"], pto=cell["pto"], pto_evol=min(cell["pto"], 2))
+              ZMq=cell["ZMq"], pto=cell["pto"], pto_evol=cell.get("pto_evol", min(cell["pto"], 2)))
     # the (Z, A) dictionary may list its keys in either order (yaml.safe_dump sorts them: A first)
     tgt = {"A": A, "Z": Z} if cell.get("a_first") else {"Z": Z, "A": A}
     ft = cm.linear_form(cm.run_combiner(P, target=tgt, **kw))
@@ -282,7 +290,7 @@ def run(chk, only=None):
             else:
                 chk.discharged += 1
         # explicit {Z, A} targets keep their (in general non-integer) values
-        for tgt in ({"Z": 3.0, "A": 7.0}, {"Z": 23.403, "A": 49.618}, {"A": 63.5, "Z": 29.5}, {"Z": 0.4, "A": 1.0}):
+        for tgt in ({"Z": 3.0, "A": 7.0}, {"Z": 23.403, "A": 49.618}, {"A": 63.5, "Z": 29.5}, {"Z": 0.4, "A": 1.0}, {"Z": 0.0, "A": 1.0}, {"Z": 0, "A": 2}):
             chk.obligations += 1
             chk.evaluations += 1
             bad, detail = replay_explicit(dict(target=tgt))
